@@ -102,6 +102,12 @@ type WorldOpts struct {
 	MaxTxs      int  // per block, default 4
 	NoSlash     bool // do not generate double-signers (open finding exclusion)
 	NoParams    bool // never generate parameter changes
+	// RootAhead: while the chain is NOT its own root (Params.Consensus.RootChainId != ChainID) its certificates carry
+	// RootHeight = height + RootAhead (the root chain is ahead of the nested chain); once it is its own root they carry
+	// the chain's own height, as the controller does. RootSwitch adds rootChainID changes to the parameter mix.
+	RootAhead  uint64
+	RootBehind uint64 // instead of RootAhead: the root chain is younger, RootHeight = max(1, height - RootBehind)
+	RootSwitch bool
 	// CommitteeParamWeight > 0 adds changes of MaxCommitteeSize / MaximumDelegatesPerCommittee to the parameter mix
 	// (weight relative to the 16 staking parameter slots)
 	CommitteeParamWeight int
@@ -124,6 +130,9 @@ func StakingParams() *fsm.Params {
 	p.Validator.NonSignSlashPercentage = 10
 	return p
 }
+
+// HugeCaps are "no cap" values a governance proposal may choose for the committee caps.
+var HugeCaps = []uint64{1 << 31, 1 << 32, 1<<63 - 1, 1 << 63, 1<<64 - 1}
 
 // DefaultStakingWeights biases the mix towards staking operations.
 var DefaultStakingWeights = map[OpKind]int{OpStake: 6, OpEditStake: 5, OpPause: 3, OpUnpause: 2, OpUnstake: 3, OpSend: 1, OpParam: 2}
@@ -159,6 +168,9 @@ func (o *WorldOpts) defaults() {
 	}
 	if o.Committees == nil {
 		o.Committees = []uint64{o.ChainID, 2, 3}
+		if o.ChainID == 2 {
+			o.Committees = []uint64{2, 1, 3}
+		}
 	}
 	if o.Pillars == 0 {
 		o.Pillars = 2
@@ -561,7 +573,14 @@ func (w *World) genSimple(kind OpKind) *PlannedTx {
 	}
 	bad = func(v *fsm.Validator) bool { return !good(v) }
 	invalid := ""
-	v := w.pickVal(string(kind), good)
+	var v *fsm.Validator
+	if kind == OpUnstake && w.Src.Int("unstake-lazy", 0, 1) == 0 {
+		// a validator that is missing certificates of the current non-sign window leaves before the window rolls over
+		v = w.pickVal("unstake-lazy-v", func(v *fsm.Validator) bool { return good(v) && w.Lazy[string(v.Address)] })
+	}
+	if v == nil {
+		v = w.pickVal(string(kind), good)
+	}
 	if v == nil || w.Src.Int("wrongstate", 0, 11) == 0 {
 		if b := w.pickVal(string(kind)+"-bad", bad); b != nil {
 			v, invalid = b, "wrong status"
@@ -609,14 +628,21 @@ func (w *World) StakingParamChange() ParamChange {
 	vp := w.Params.Validator
 	u := func(key string, v uint64) ParamChange { return ParamChange{Space: fsm.ParamSpaceVal, Key: key, U: v} }
 	pick := func(label string, vs ...uint64) uint64 { return vs[w.Src.Int(label, 0, len(vs)-1)] }
+	if w.Opts.RootSwitch && w.Src.Int("rootswitch", 0, 3) == 0 {
+		to := w.Opts.ChainID // become the own root
+		if w.Params.Consensus.RootChainId == w.Opts.ChainID {
+			to = 1 // go (back) under chain 1
+		}
+		return ParamChange{Space: fsm.ParamSpaceCons, Key: fsm.ParamRootChainId, U: to}
+	}
 	switch x := w.Src.Int("param", 0, 17+w.Opts.CommitteeParamWeight); {
 	case x >= 18:
 		// committee shape (C13): caps around the current population size
 		n := uint64(len(w.ValAddrs))
 		if w.Src.Int("capkind", 0, 2) == 0 {
-			return u(fsm.ParamMaximumDelegatesPerCommittee, pick("maxd", 0, 1, 2, 3, n))
+			return u(fsm.ParamMaximumDelegatesPerCommittee, pick("maxd", 0, 1, 2, 3, n, HugeCaps[w.Src.Int("maxd-huge", 0, len(HugeCaps)-1)]))
 		}
-		return u(fsm.ParamMaxCommitteeSize, pick("maxs", 1, 2, 3, max(n/2, 1), max(n, 2)-1, n+1, 100))
+		return u(fsm.ParamMaxCommitteeSize, pick("maxs", 1, 2, 3, max(n/2, 1), max(n, 2)-1, n+1, 100, HugeCaps[w.Src.Int("maxs-huge", 0, len(HugeCaps)-1)]))
 	case x >= 16:
 		// the chain announces its own retirement: the controller then stamps Results.Retired on the chain's own certificates
 		return ParamChange{Space: fsm.ParamSpaceCons, Key: fsm.ParamRetired, U: pick("retired", 0, 1, 1, 7)}
@@ -812,6 +838,10 @@ func (w *World) GenBlock() *BlockPlan {
 	p.NNS = len(nsNames)
 	if len(nsNames) > 0 {
 		d = append(d, "ns=["+strings.Join(nsNames, ",")+"]")
+	}
+	if w.Params.Consensus.RootChainId != w.Opts.ChainID {
+		p.Spec.RootHeight = w.RootHeightAt(w.C.Height())
+		d = append(d, fmt.Sprintf("root=%d@%d", w.Params.Consensus.RootChainId, p.Spec.RootHeight))
 	}
 	res := &lib.CertificateResult{RewardRecipients: &lib.RewardRecipients{}, SlashRecipients: &lib.SlashRecipients{}}
 	// controller.HandleRetired: the chain's own certificates carry Retired when the consensus parameter 'retired' is set
@@ -1024,4 +1054,25 @@ func (w *World) CertResultsTx(decorate func(res *lib.CertificateResult) string) 
 	}
 	return &PlannedTx{Kind: OpCertResults, Bytes: tx, Hash: crypto.HashString(tx), Invalid: inv,
 		Desc: fmt.Sprintf("cert-results c2 h=%d root=%d rw=[%s] ns=[%s]%s", o.Height, rootH, strings.Join(rw, ","), strings.Join(ns, ","), extra)}
+}
+
+// EmptySpec is the empty block a correct proposer would build on chain c (a fork of the world's chain) right now: the
+// certificate's root height is the chain's own height when it is its own root, else the root chain's (see RootHeightAt).
+func (w *World) EmptySpec(c *Chain) BlockSpec {
+	sp := BlockSpec{}
+	if cons, err := c.FSM.GetParamsCons(); err == nil && cons.RootChainId != w.Opts.ChainID {
+		sp.RootHeight = w.RootHeightAt(c.Height())
+	}
+	return sp
+}
+
+// RootHeightAt is the height of the foreign root chain while this chain is at height h (monotone in h).
+func (w *World) RootHeightAt(h uint64) uint64 {
+	if w.Opts.RootBehind > 0 {
+		if h > w.Opts.RootBehind {
+			return h - w.Opts.RootBehind
+		}
+		return 1
+	}
+	return h + w.Opts.RootAhead
 }
